@@ -40,10 +40,10 @@ fn sdi(data: &[u8]) -> Vec<u8> {
 
 /// the slow-path letters that may be packed two to a frame (BFS only): the ten slow-path letters of EVENTS and a
 /// Set Error Info carrying a non-zero code
-pub const INNER: [usize; 14] = [0, 1, 2, 3, 4, 5, 6, 7, 8, 9, 12, 13, 14, 15];
+pub const INNER: [usize; 15] = [0, 1, 2, 3, 4, 5, 6, 7, 8, 9, 12, 13, 14, 15, 16];
 
 /// first event id of the packed frames (letters 0..SINGLE-1 are single PDUs)
-pub const SINGLE: usize = 16;
+pub const SINGLE: usize = 17;
 
 /// number of events explored per state by the BFS: the 12 letters, letter 12 (set-error-info with a non-zero code),
 /// letter 13 (deactivate-all naming another share id), letter 14 (a font list sent by the server), letter 15 (a font map whose mapFlags are 0) and every ordered pair of INNER letters packed into ONE frame
@@ -91,6 +91,7 @@ pub fn event_name(ev: usize) -> String {
         13 => "deactivate-all(naming another share id)".to_string(),
         14 => "font-list(a client PDU, same layout as the font map, sent by the server)".to_string(),
         15 => "font-map(mapFlags 0)".to_string(),
+        16 => "share-control PDU of a type the client does not implement (server redirection, 0x1A)".to_string(),
         _ => {
             let d = decompose(ev);
             format!("one frame [{} + {}]", event_name(d[0]), event_name(d[1]))
@@ -113,6 +114,7 @@ fn event_inner(ev: usize, sid: u32) -> Vec<u8> {
         13 => share::deactivate_all(sid ^ 0x0001_0001, 1002),
         14 => share::font_list_from_server(sid, 1002),
         15 => share::font_map_flags(sid, 1002, 0),
+        16 => share::share_control(0x1A, 1002, &[0u8; 12]),
         _ => share::set_error_info(sid, 1002, 5),
     }
 }
@@ -300,6 +302,8 @@ pub fn step(l: &mut Live, ev: usize) -> Result<Key, (String, String)> {
             14 => 8,
             // a font map is a font map whatever its mapFlags
             15 => 6,
+            // a share-control PDU of another type changes nothing (the read may report it as an error)
+            16 => 8,
             _ => e,
         };
         permitted(st, e).into_iter().map(|s2| (s2, sh, vec![])).collect()
@@ -322,6 +326,11 @@ pub fn step(l: &mut Live, ev: usize) -> Result<Key, (String, String)> {
             // out of the active state — or if the frame did not start in it — ignoring the rest of the frame is as good as
             // handling it.
             next.extend(outs.iter().filter(|o| r != 5 || o.0 != 5).cloned());
+            // a reader that stops with an error at a PDU it does not implement does not see what follows it in the frame:
+            // everything BEFORE that PDU counts, what comes after it may be lost
+            if letters[..i].contains(&16) {
+                next.extend(outs.iter().cloned());
+            }
         }
         outs = next;
     }
